@@ -49,6 +49,8 @@ class Folder:
         # lookup_const_body(path) -> THIR body dict or None
         self.lookup = lookup_const_body
         self.depth = 0
+        self.env = {}        # variable name -> folded value (per-variant evaluation of table functions)
+        self.discr = None    # callable (enum path, variant) -> int or None
 
     def fold(self, e):
         if e is None:
@@ -113,6 +115,24 @@ class Folder:
             raise Unfoldable("negation of non-number", sp)
         if k in ("ref", "deref"):
             return self.fold(e["e"])
+        if k == "var":
+            if e["name"] in self.env:
+                return self.env[e["name"]]
+            raise Unfoldable("variable " + e["name"], sp)
+        if k == "index":
+            base = self.fold(e["e"])
+            idx = self.fold(e["i"])
+            if idx[0] == "discr_of" and self.discr is not None:
+                d = self.discr(idx[1][1], idx[1][2])
+                if d is None:
+                    raise Unfoldable("unknown discriminant", sp)
+                idx = ("num", Fraction(d), idx[2], str(d))
+            if base[0] == "array" and idx[0] == "num" and idx[1].denominator == 1:
+                i = int(idx[1])
+                if 0 <= i < len(base[1]):
+                    return base[1][i]
+                raise Unfoldable("index %d out of bounds (len %d): a panic at run time" % (i, len(base[1])), sp)
+            raise Unfoldable("index into a non-constant", sp)
         if k == "coerce":
             return self.fold(e["e"])
         if k == "adt":
